@@ -3,5 +3,42 @@ from checks import e3check
 
 QUICK = ['e2_h_debug_U2_R1', 'e2_h_cv_debug_U2_R1', 'dbg_locker_mudebug_R3']
 THOROUGH = ['e2_h_debug_U3_R1', 'dbg_locker_locker_mudebug_R3', 'dbg_locker_rlocker_mudebug_R3', 'dbg_cvwaiter_signaller_cvdebug_R3']
-scenarios, jobs, confirm, info = e3check.make('C16', QUICK, THOROUGH, 'Concurrency half. E2 harness h_debug: nsync_mu_debug_state(_and_waiters) under arbitrary interference must change no lock bit and release the spinlock without disturbing other bits (guarantee check on its release store). E3: lockers + a debug caller with the C01/C02 oracles. Formatting is a no-op in these builds (emit_print excluded); the buffer half is not covered by a solver check (see DESIGN.md: CBMC does not get through the varargs formatter).', ['emit_mu_state', 'emit_cv_state', 'nsync_mu_debug_state', 'nsync_mu_debug_state_and_waiters', 'nsync_cv_debug_state_and_waiters'], ['buffer bounds / truncation marker for n in 0..80 (not decided by a solver check)'])
-WORKERS = 5     # each query needs 2-10 GB (cbmc + kissat): bounded parallelism keeps the machine out of swap / the OOM killer
+scenarios, e3jobs, e3confirm, e3info = e3check.make('C16', QUICK, THOROUGH, 'Concurrency half. E2 harness h_debug: nsync_mu_debug_state(_and_waiters) under arbitrary interference must change no lock bit and release the spinlock without disturbing other bits (guarantee check on its release store). E3: lockers + a debug caller with the C01/C02 oracles. Formatting is a no-op in these builds (emit_print excluded); the buffer half is not covered by a solver check (see DESIGN.md: CBMC does not get through the varargs formatter).', ['emit_mu_state', 'emit_cv_state', 'nsync_mu_debug_state', 'nsync_mu_debug_state_and_waiters', 'nsync_cv_debug_state_and_waiters'], ['buffer bounds / truncation marker for n in 0..80 (not decided by a solver check)'])
+WORKERS = 8     # each query needs 2-10 GB (cbmc + kissat): bounded parallelism keeps the machine out of swap / the OOM killer
+
+from lib import e1, vf
+
+
+EC_UNITS = ['internal/common.c', 'internal/dll.c', 'platform/posix/src/yield.c', 'platform/posix/src/per_thread_waiter.c', 'platform/posix/src/nsync_panic.c',
+            'platform/linux/src/nsync_semaphore_futex.c', 'platform/posix/src/time_rep.c']     # only to link the native replay; unused by the query
+
+
+def jobs(ctx):
+    js = e3jobs(ctx)
+    # buffer half, core mechanism: the real emit_c / emit_init of debug.c for every buffer size n (one query per n; the number of
+    # emitted characters m <= 90 and the characters are symbolic)
+    ns = list(range(0, 81))
+    for n in ns:
+        js.append(e1.make_job(ctx, 'emit_core_n%d' % n, 'C16/emit_core.c', EC_UNITS, 'harness', unwind=92, unwindset=['emit_c.0:6'], defines=['NFIX=%d' % n, 'NMAX=80', 'MMAX=90'],
+                              timeout=600, desc='emit_init/emit_c with a buffer of exactly %d bytes, any text of up to 90 characters + final NUL' % n))
+    for n in (0, 3, 40):
+        js.append(e1.make_job(ctx, 'emit_core_n%d_witness' % n, 'C16/emit_core.c', EC_UNITS, 'harness', unwind=92, unwindset=['emit_c.0:6'], defines=['NFIX=%d' % n, 'NMAX=80', 'MMAX=90'],
+                              timeout=600, expect='witness'))
+    return js
+
+
+def confirm(ctx, job, failure):
+    if job.name.startswith('emit_core'):
+        return e1.confirm(ctx, job, failure)
+    return e3confirm(ctx, job, failure)
+
+
+def info(ctx):
+    d = e3info(ctx)
+    d['explanation'] += (' BUFFER HALF (core mechanism): harness/C16/emit_core.c includes the real internal/debug.c and drives emit_init / emit_c directly (sequential CBMC, one query per buffer size n = 0..80, '
+                         'text of m <= 90 symbolic characters followed by the final NUL): writes stay inside buf[0..n-1] (malloc(n) exactly + CBMC bounds checks), NUL-terminated for n >= 1, full text when it fits, '
+                         'prefix + "..." when truncated and n >= 4. Every byte the debug-state functions produce goes through emit_c (by reading); the varargs formatter above it is not encoded.')
+    d['units'] = sorted(set(d['units'] + ['internal/debug.c']))
+    d['functions'] = d['functions'] + ['emit_init', 'emit_c']
+    d['outside'] = [o for o in d['outside'] if 'buffer bounds' not in o] + ['emit_print / emit_word / emit_waiters (varargs formatting above emit_c): not encoded; that they write only through emit_c is established by reading']
+    return d
